@@ -164,6 +164,22 @@ static void do_plain_enc(void) {
     carquet_buffer_destroy(&out);
 }
 
+extern size_t carquet_delta_length_max_encoded_size(const carquet_byte_array_t*, int32_t);
+extern size_t carquet_delta_strings_max_encoded_size(const carquet_byte_array_t*, int32_t);
+extern size_t carquet_delta_strings_work_buffer_size(const carquet_byte_array_t*, int32_t);
+
+/* plain_decg: the same decoders reached through the generic entry point carquet_decode_plain (what the page reader calls) */
+static int g_generic = 0;
+static int64_t gen_dec(const char* ty, const uint8_t* in, size_t nb, void* out, int64_t count, int flen) {
+    carquet_physical_type_t t =
+        !strcmp(ty, "bool") ? CARQUET_PHYSICAL_BOOLEAN : !strcmp(ty, "i32") ? CARQUET_PHYSICAL_INT32 :
+        !strcmp(ty, "i64") ? CARQUET_PHYSICAL_INT64 : !strcmp(ty, "i96") ? CARQUET_PHYSICAL_INT96 :
+        !strcmp(ty, "f32") ? CARQUET_PHYSICAL_FLOAT : !strcmp(ty, "f64") ? CARQUET_PHYSICAL_DOUBLE :
+        !strcmp(ty, "ba") ? CARQUET_PHYSICAL_BYTE_ARRAY : !strncmp(ty, "flba", 4) ? CARQUET_PHYSICAL_FIXED_LEN_BYTE_ARRAY :
+        (carquet_physical_type_t)99;
+    return carquet_decode_plain(in, nb, t, flen, out, count);
+}
+
 static void do_plain_dec(void) {
     const char* ty = h_tok[1];
     int64_t count = strtoll(h_tok[2], NULL, 10);
@@ -172,37 +188,42 @@ static void do_plain_dec(void) {
     int64_t r = -1;
     if (!strcmp(ty, "bool")) {
         uint8_t* v = malloc(c ? c : 1);
-        r = carquet_decode_plain_boolean(in, nb, v, count);
+        r = g_generic ? gen_dec(ty, in, nb, v, count, 0) : carquet_decode_plain_boolean(in, nb, v, count);
         if (r < 0) err(-1); else { printf("OK %" PRId64 " ", r); put_nums8(v, c); putchar('\n'); }
         free(v);
     } else if (!strcmp(ty, "i32") || !strcmp(ty, "f32")) {
         uint32_t* v = malloc(c * 4 + 1);
-        r = !strcmp(ty, "i32") ? carquet_decode_plain_int32(in, nb, (int32_t*)v, count)
+        r = g_generic ? gen_dec(ty, in, nb, v, count, 0) : !strcmp(ty, "i32") ? carquet_decode_plain_int32(in, nb, (int32_t*)v, count)
                                : carquet_decode_plain_float(in, nb, (float*)v, count);
         if (r < 0) err(-1); else { printf("OK %" PRId64 " ", r); put_nums32(v, c); putchar('\n'); }
         free(v);
     } else if (!strcmp(ty, "i64") || !strcmp(ty, "f64")) {
         uint64_t* v = malloc(c * 8 + 1);
-        r = !strcmp(ty, "i64") ? carquet_decode_plain_int64(in, nb, (int64_t*)v, count)
+        r = g_generic ? gen_dec(ty, in, nb, v, count, 0) : !strcmp(ty, "i64") ? carquet_decode_plain_int64(in, nb, (int64_t*)v, count)
                                : carquet_decode_plain_double(in, nb, (double*)v, count);
         if (r < 0) err(-1); else { printf("OK %" PRId64 " ", r); put_nums64(v, c); putchar('\n'); }
         free(v);
     } else if (!strcmp(ty, "i96")) {
         carquet_int96_t* v = malloc(c * sizeof(carquet_int96_t) + 1);
-        r = carquet_decode_plain_int96(in, nb, v, count);
+        r = g_generic ? gen_dec(ty, in, nb, v, count, 0) : carquet_decode_plain_int96(in, nb, v, count);
         if (r < 0) err(-1); else { printf("OK %" PRId64 " ", r); put_nums32((uint32_t*)v, 3 * c); putchar('\n'); }
         free(v);
     } else if (!strcmp(ty, "ba")) {
         carquet_byte_array_t* v = malloc(c * sizeof(carquet_byte_array_t) + 1);
-        r = carquet_decode_plain_byte_array(in, nb, v, count);
+        r = g_generic ? gen_dec(ty, in, nb, v, count, 0) : carquet_decode_plain_byte_array(in, nb, v, count);
         if (r < 0) err(-1); else { printf("OK %" PRId64 " ", r); put_bas(v, c); putchar('\n'); }
         free(v);
     } else if (!strncmp(ty, "flba", 4)) {
         int w = atoi(ty + 4);
         size_t ob = c * (size_t)(w > 0 ? w : 0);
         uint8_t* v = malloc(ob ? ob : 1);
-        r = carquet_decode_plain_fixed_byte_array(in, nb, v, count, w);
+        r = g_generic ? gen_dec(ty, in, nb, v, count, w) : carquet_decode_plain_fixed_byte_array(in, nb, v, count, w);
         if (r < 0) err(-1); else { printf("OK %" PRId64 " ", r); h_puthex(v, ob); putchar('\n'); }
+        free(v);
+    } else if (g_generic) {
+        uint8_t* v = malloc(c * 16 + 16);
+        r = gen_dec(ty, in, nb, v, count, 0);      /* a physical type that does not exist */
+        if (r < 0) err(-1); else printf("OK %" PRId64 "\n", r);
         free(v);
     } else err(-2);
     free(base);
@@ -280,17 +301,51 @@ static void do_ds_dec(void) {
     free(work); free(v); free(base);
 }
 
-/* one huge byte array between two empty ones: only the lengths matter (delta_length capacity estimate) */
+/* Huge byte arrays (only the lengths matter): dl_big / ds_big N = "", N zero bytes, ""; ds_big2 N = N zeros, N+1 zeros, ""
+ * (prefix lengths 0,N,0 and suffix lengths N,1,0: both length streams are wide).
+ * Prints the encoded size and the library's own size estimates, which must be upper bounds. */
 static void do_dl_big(void) {
     size_t big = (size_t)strtoull(h_tok[1], NULL, 10);
-    uint8_t* d = calloc(big ? big : 1, 1);
+    int strings = !strncmp(h_tok[0], "ds_big", 6);
+    uint8_t* d = calloc(big + 2, 1);
     carquet_byte_array_t v[3]; uint8_t z = 0;
-    v[0].data = &z; v[0].length = 0; v[1].data = d; v[1].length = (int32_t)big; v[2].data = &z; v[2].length = 0;
+    if (!strcmp(h_tok[0], "ds_big2")) {
+        v[0].data = d; v[0].length = (int32_t)big; v[1].data = d; v[1].length = (int32_t)big + 1; v[2].data = &z; v[2].length = 0;
+    } else {
+        v[0].data = &z; v[0].length = 0; v[1].data = d; v[1].length = (int32_t)big; v[2].data = &z; v[2].length = 0;
+    }
     carquet_buffer_t out; carquet_buffer_init(&out);
-    carquet_status_t st = !strcmp(h_tok[0], "ds_big") ? carquet_delta_strings_encode(v, 3, &out)
-                                                       : carquet_delta_length_encode(v, 3, &out);
-    if (st != CARQUET_OK) err(st); else printf("OK %zu\n", out.size);
+    carquet_status_t st = strings ? carquet_delta_strings_encode(v, 3, &out) : carquet_delta_length_encode(v, 3, &out);
+    size_t mx = strings ? carquet_delta_strings_max_encoded_size(v, 3) : carquet_delta_length_max_encoded_size(v, 3);
+    if (st != CARQUET_OK) err(st); else printf("OK %zu %zu\n", out.size, mx);
     carquet_buffer_destroy(&out); free(d);
+}
+
+/* str_bounds dl|ds <strings>: encoded size, max_encoded_size; for ds also work_buffer_size and the status of a decode that is
+ * given exactly that much work buffer */
+static void do_str_bounds(void) {
+    int strings = !strcmp(h_tok[1], "ds");
+    balist_t l = parse_bas(h_tok[2]);
+    carquet_buffer_t out; carquet_buffer_init(&out);
+    carquet_status_t st = strings ? carquet_delta_strings_encode(l.v, (int32_t)l.n, &out)
+                                  : carquet_delta_length_encode(l.v, (int32_t)l.n, &out);
+    size_t mx = strings ? carquet_delta_strings_max_encoded_size(l.v, (int32_t)l.n)
+                        : carquet_delta_length_max_encoded_size(l.v, (int32_t)l.n);
+    if (st != CARQUET_OK) { printf("ERR %d %zu\n", st, mx); }
+    else if (!strings) printf("OK %zu %zu\n", out.size, mx);
+    else {
+        size_t wb = carquet_delta_strings_work_buffer_size(l.v, (int32_t)l.n);
+        uint8_t* cp = malloc(out.size ? out.size : 1); memcpy(cp, out.data, out.size);
+        carquet_byte_array_t* v = malloc(l.n * sizeof(carquet_byte_array_t) + 1);
+        uint8_t* work = malloc(wb ? wb : 1); size_t consumed = 0;
+        carquet_status_t ds = carquet_delta_strings_decode(cp, out.size, v, (int32_t)l.n, work, wb, &consumed);
+        int same = ds == CARQUET_OK;
+        for (size_t i = 0; same && i < l.n; i++)
+            same = v[i].length == l.v[i].length && (v[i].length == 0 || !memcmp(v[i].data, l.v[i].data, (size_t)v[i].length));
+        printf("OK %zu %zu %zu %d %d\n", out.size, mx, wb, ds, same);
+        free(work); free(v); free(cp);
+    }
+    carquet_buffer_destroy(&out); free_bas(l);
 }
 
 /* ---------------------------------------------------------------- BYTE_STREAM_SPLIT */
@@ -460,7 +515,9 @@ int main(void) {
         else if (!strcmp(op, "ds_enc") && h_ntok == 2) do_str_enc(1);
         else if (!strcmp(op, "dl_dec") && h_ntok == 3) do_dl_dec();
         else if (!strcmp(op, "ds_dec") && h_ntok == 4) do_ds_dec();
-        else if ((!strcmp(op, "dl_big") || !strcmp(op, "ds_big")) && h_ntok == 2) do_dl_big();
+        else if ((!strcmp(op, "dl_big") || !strcmp(op, "ds_big") || !strcmp(op, "ds_big2")) && h_ntok == 2) do_dl_big();
+        else if (!strcmp(op, "str_bounds") && h_ntok == 3) do_str_bounds();
+        else if (!strcmp(op, "plain_decg") && h_ntok == 4) { g_generic = 1; do_plain_dec(); g_generic = 0; }
         else if (!strcmp(op, "bss_enc") && h_ntok == 4) do_bss(1);
         else if (!strcmp(op, "bss_dec") && h_ntok == 4) do_bss(0);
         else if (!strcmp(op, "dict_enc") && h_ntok == 3) do_dict_enc();
